@@ -193,6 +193,12 @@ func u32(v uint32) []byte {
 // this is an ordinary re-signing; with another key it is a forgery that keeps the
 // original certificate list.
 func Rebuild(data []byte, certs [][]byte, spki []byte, sign func(digest []byte) ([]byte, uint32, error)) ([]byte, error) {
+	return RebuildWithDigestCopies(data, certs, spki, sign, 1)
+}
+
+// RebuildWithDigestCopies is Rebuild with the (one) digest record repeated: a signer may
+// list as many digest records as it likes, and a verifier's work must not multiply with them.
+func RebuildWithDigestCopies(data []byte, certs [][]byte, spki []byte, sign func(digest []byte) ([]byte, uint32, error), copies int) ([]byte, error) {
 	info, err := Parse(data)
 	if err != nil {
 		return nil, err
@@ -205,7 +211,7 @@ func Rebuild(data []byte, certs [][]byte, spki []byte, sign func(digest []byte) 
 	}
 	// the digest record names the signature algorithm it belongs to
 	mkSigned := func(alg uint32) []byte {
-		dig := lp(append(u32(alg), lp(digest)...))
+		dig := bytes.Repeat(lp(append(u32(alg), lp(digest)...)), copies)
 		return append(append(lp(dig), lp(certSeq)...), lp(nil)...)
 	}
 	// the algorithm id depends on the key type, which sign reports; compute twice if needed
